@@ -12,7 +12,18 @@ instance). `Spec.nth w n = n % 2^w` is what the statement prescribes for the n-t
 The code rewrites the file from offset 0 **without truncating it**, so after a wrap (`"16383\n"`
 overwritten by `"0\n"`) the file is `"0\n383\n"`. The theorems below show that this is harmless:
 the text written always ends in `"\n"`, hence the first line is exactly the number written, whatever
-stale characters follow (`C19_file_valid_call` holds for every previous content).
+stale characters follow (`C19_file_valid_call` holds for every previous ASCII content).
+
+**Domain: ASCII file content.** The model's `isDigit` / `isSpace` / `readline` are CPython's
+`str.isdigit()` / `str.rstrip()` / text-mode `readline()` on ASCII text only (CPython accepts every
+Unicode decimal digit: a UTF-8 file `"٣\n"` reads as 3; non-ASCII white space is stripped;
+undecodable octets raise `UnicodeDecodeError`; and "one character = one octet" fails for the
+overwrite). Every theorem below that says what a reader obtains from a file it did not write itself
+therefore carries the hypothesis `Ascii s` / `AsciiFile f` (`∀ c ∈ s, c.toNat < 128`), and
+`C19_ascii_step` / `C19_ascii_trace` show that the providers never leave that domain. Theorems that
+start from a file the provider created (`C19_file_valid_create`, `C19_file_valid_fresh`,
+`C19_file_seq`) need no such hypothesis; `C19_restart_step` / `C19_restart` (a new instance does
+not touch an existing file) do not depend on what the content is.
 -/
 namespace SpVerif.Props.C19
 open SpVerif SpVerif.SeqCount
@@ -69,6 +80,72 @@ theorem C19_acceptable (w v flags : Nat) (hw : w ≤ 14) (hv : v < 2 ^ w) :
 
 /-! ## Decimal text -/
 
+/-! ## The ASCII domain of the file-backed provider -/
+
+/-- the content is ASCII text (the domain on which the model's text primitives are CPython's) -/
+def Ascii (s : List Char) : Prop := ∀ c ∈ s, c.toNat < 128
+
+instance (s : List Char) : Decidable (Ascii s) := by unfold Ascii; infer_instance
+
+/-- the file is absent or holds ASCII text -/
+def AsciiFile (f : File) : Prop := ∀ s, f = some s → Ascii s
+
+instance (f : File) : Decidable (AsciiFile f) := by
+  cases f with
+  | none => exact isTrue (fun s h => by cases h)
+  | some t =>
+    exact decidable_of_iff (Ascii t) ⟨fun h s e => by cases e; exact h, fun h => h t rfl⟩
+
+example : Ascii ['1', '6', '3', '8', '3', '\n'] := by decide
+example : ¬ Ascii ['٣', '\n'] := by decide
+
+private theorem ascii_render (n : Nat) : Ascii (render n ++ ['\n']) := by
+  intro c hc
+  rcases List.mem_append.1 hc with h | h
+  · have hd := render_all_digit n c h
+    simp only [isDigit, Bool.and_eq_true, decide_eq_true_eq] at hd
+    omega
+  · simp only [List.mem_singleton] at h
+    subst h; decide
+
+/-- **the providers never leave the ASCII domain**: whatever step is taken on an ASCII (or absent)
+    file, the file afterwards is ASCII (or absent) — what is written is decimal digits and `"\n"`,
+    and a stale tail is a suffix of the old content -/
+theorem C19_ascii_step (w : Nat) (f : File) (st : Step) (ha : AsciiFile f) : AsciiFile (step w f st).2 := by
+  cases st with
+  | current => exact ha
+  | delete => intro s h; cases h
+  | restart =>
+    cases f with
+    | none => intro s h; cases h; decide
+    | some t => exact ha
+  | call =>
+    cases f with
+    | none => intro s h; cases h
+    | some t =>
+      simp only [step, getAndIncrement]
+      split
+      · exact ha
+      · intro s h
+        cases h
+        intro c hc
+        simp only [overwrite] at hc
+        rcases List.mem_append.1 hc with h | h
+        · exact ascii_render _ c h
+        · exact ha t rfl c (List.mem_of_mem_drop h)
+
+/-- every file in the trace of any history from an ASCII (or absent) file is ASCII (or absent) -/
+theorem C19_ascii_trace (w : Nat) (f : File) (steps : List Step) (ha : AsciiFile f) :
+    ∀ p ∈ trace w f steps, AsciiFile p.2 := by
+  induction steps generalizing f with
+  | nil => simp [trace]
+  | cons s ss ih =>
+    intro p hp
+    simp only [trace, List.mem_cons] at hp
+    rcases hp with rfl | hp
+    · exact C19_ascii_step w f s ha
+    · exact ih _ (C19_ascii_step w f s ha) p hp
+
 /-- `int(str(n)) = n`, and `str(n)` is accepted by `isdigit` -/
 theorem C19_render_parse (n : Nat) : parseDec (render n) = some n := parseDec_render n
 
@@ -76,9 +153,12 @@ theorem C19_render_parse (n : Nat) : parseDec (render n) = some n := parseDec_re
 def firstLine (s : List Char) : List Char :=
   ((s.takeWhile (fun c => !isNl c)).reverse.dropWhile isSpace).reverse
 
-/-- the operational `readline` + `rstrip` of the model compute `firstLine` -/
-theorem C19_first_line (s : List Char) : rstrip (readline s) = firstLine s := by
+private theorem first_line (s : List Char) : rstrip (readline s) = firstLine s := by
   rw [rstrip_readline, rstrip_eq_reverse]; rfl
+
+/-- the operational `readline` + `rstrip` of the model compute `firstLine` (stated on ASCII text,
+    where the model's `readline` / `rstrip` are CPython's) -/
+theorem C19_first_line (s : List Char) (_ha : Ascii s) : rstrip (readline s) = firstLine s := first_line s
 
 /-! ## File-backed provider: validity of the stored state -/
 
@@ -105,12 +185,12 @@ private theorem checkCount_char (w : Nat) (line : List Char) :
     · have : parseNat (rstrip line) > 2 ^ w - 1 := by omega
       simp [hd, hr, this]
 
-/-- acceptance, exactly: a reader obtains `v` iff the first line is a non-empty string of ASCII
-    digits whose decimal value is `v`, and `v < 2^w` -/
-theorem C19_accept_iff (w : Nat) (s : List Char) (v : Nat) :
+/-- acceptance, exactly (ASCII content): a reader obtains `v` iff the first line is a non-empty
+    string of ASCII digits whose decimal value is `v`, and `v < 2^w` -/
+theorem C19_accept_iff (w : Nat) (s : List Char) (_ha : Ascii s) (v : Nat) :
     current w (some s) = .ok v ↔
       (firstLine s ≠ [] ∧ (∀ c ∈ firstLine s, isDigit c = true) ∧ parseNat (firstLine s) = v ∧ v < 2 ^ w) := by
-  simp only [current, checkCount_char, C19_first_line]
+  simp only [current, checkCount_char, first_line]
   constructor
   · intro h
     split at h
@@ -126,11 +206,11 @@ theorem C19_accept_iff (w : Nat) (s : List Char) (v : Nat) :
     subst h3
     simp [hd, h4]
 
-theorem C19_wf_iff (w : Nat) (f : File) : WF w f = true ↔ Valid w f := by
+theorem C19_wf_iff (w : Nat) (f : File) (_ha : AsciiFile f) : WF w f = true ↔ Valid w f := by
   cases f with
   | none => simp [WF, Valid, current]
   | some s =>
-    simp only [WF, Valid, current, checkCount_char, C19_first_line, Bool.and_eq_true, decide_eq_true_eq]
+    simp only [WF, Valid, current, checkCount_char, first_line, Bool.and_eq_true, decide_eq_true_eq]
     constructor
     · intro h; exact ⟨_, by simp [h], h.2⟩
     · rintro ⟨v, h, _⟩
@@ -154,7 +234,7 @@ theorem C19_file_valid_create (w : Nat) : current w (init none) = .ok 0 := by
 /-- **after every successful call the file holds a valid count, whatever it held before** (any
     stale tail, any earlier content): a reader obtains `(v + 1) mod 2^w`. This is where "overwrite
     without truncation" is shown harmless. -/
-theorem C19_file_valid_call (w : Nat) (f f' : File) (v : Nat)
+theorem C19_file_valid_call (w : Nat) (f f' : File) (_ha : AsciiFile f) (v : Nat)
     (h : getAndIncrement w f = (.ok v, f')) :
     current w f' = .ok ((v + 1) % 2 ^ w) ∧ Valid w f' := by
   have hc := call_ok_current w f f' v h
@@ -167,11 +247,11 @@ theorem C19_file_valid_call (w : Nat) (f f' : File) (v : Nat)
   exact ⟨this, _, this, hlt⟩
 
 /-- a failing call or a `current()` leaves the file as it is -/
-theorem C19_file_error_unchanged (w : Nat) (f : File) (e : Err) (h : current w f = .error e) :
+theorem C19_file_error_unchanged (w : Nat) (f : File) (_ha : AsciiFile f) (e : Err) (h : current w f = .error e) :
     getAndIncrement w f = (.error e, f) := call_err w f e h
 
 /-- validity is preserved by every step other than deleting the file -/
-theorem C19_file_valid_step (w : Nat) (f : File) (s : Step) (hs : s ≠ .delete) (hv : Valid w f) :
+theorem C19_file_valid_step (w : Nat) (f : File) (ha : AsciiFile f) (s : Step) (hs : s ≠ .delete) (hv : Valid w f) :
     Valid w (step w f s).2 := by
   obtain ⟨v, hc, hlt⟩ := hv
   cases s with
@@ -183,29 +263,29 @@ theorem C19_file_valid_step (w : Nat) (f : File) (s : Step) (hs : s ≠ .delete)
     | some t => exact ⟨v, hc, hlt⟩
   | call =>
     obtain ⟨t, _, hg⟩ := call_of_current w f v hc
-    have := (C19_file_valid_call w f _ v hg).2
+    have := (C19_file_valid_call w f _ ha v hg).2
     simpa [step, hg] using this
 
 /-- **invariant over any history**: from a valid file, after every step of any sequence of calls,
     `current()`s and restarts, the file holds a valid count -/
-theorem C19_file_valid (w : Nat) (f : File) (steps : List Step) (hd : Step.delete ∉ steps)
+theorem C19_file_valid (w : Nat) (f : File) (ha : AsciiFile f) (steps : List Step) (hd : Step.delete ∉ steps)
     (hv : Valid w f) : ∀ p ∈ trace w f steps, Valid w p.2 := by
   induction steps generalizing f with
   | nil => simp [trace]
   | cons s ss ih =>
     have hs : s ≠ .delete := fun h => hd (by simp [h])
     have hss : Step.delete ∉ ss := fun h => hd (by simp [h])
-    have h1 := C19_file_valid_step w f s hs hv
+    have h1 := C19_file_valid_step w f ha s hs hv
     intro p hp
     simp only [trace, List.mem_cons] at hp
     rcases hp with rfl | hp
     · exact h1
-    · exact ih _ hss h1 p hp
+    · exact ih _ (C19_ascii_step w f s ha) hss h1 p hp
 
 /-- the same from scratch: first instance on a missing file, then any history -/
 theorem C19_file_valid_fresh (w : Nat) (steps : List Step) (hd : Step.delete ∉ steps) :
     ∀ p ∈ trace w (init none) steps, Valid w p.2 :=
-  C19_file_valid w _ steps hd ⟨0, C19_file_valid_create w, Nat.two_pow_pos w⟩
+  C19_file_valid w _ (by decide) steps hd ⟨0, C19_file_valid_create w, Nat.two_pow_pos w⟩
 
 /-! ## File-backed provider: the sequence, with restarts anywhere -/
 
@@ -220,7 +300,7 @@ def Spec.outs (w : Nat) : Nat → List Step → List Out
 /-- **the sequence continues exactly, across restarts at any inter-call point**: if a reader of the
     file would obtain `k mod 2^w`, then for every sequence of calls, `current()`s and restarts the
     outputs are those of the modulo counter -/
-theorem C19_file_trace (w : Nat) (f : File) (k : Nat) (steps : List Step)
+theorem C19_file_trace (w : Nat) (f : File) (ha : AsciiFile f) (k : Nat) (steps : List Step)
     (hd : Step.delete ∉ steps) (hc : current w f = .ok (k % 2 ^ w)) :
     (trace w f steps).map (·.1) = Spec.outs w k steps := by
   induction steps generalizing f k with
@@ -231,19 +311,21 @@ theorem C19_file_trace (w : Nat) (f : File) (k : Nat) (steps : List Step)
     | delete => exact absurd (by simp) hd
     | current =>
       simp only [trace, List.map_cons, Spec.outs, step, hc, Out.ofPy, Spec.nth]
-      rw [ih f k hss hc]
+      rw [ih f ha k hss hc]
     | restart =>
       cases f with
       | none => simp [current] at hc
       | some t =>
         simp only [trace, List.map_cons, Spec.outs, step, init]
-        rw [ih (some t) k hss hc]
+        rw [ih (some t) ha k hss hc]
     | call =>
       obtain ⟨t, _, hg⟩ := call_of_current w f _ hc
-      have hn := (C19_file_valid_call w f _ _ hg).1
+      have hn := (C19_file_valid_call w f _ ha _ hg).1
       rw [Nat.mod_add_mod] at hn
+      have ha' : AsciiFile (step w f .call).2 := C19_ascii_step w f .call ha
+      simp only [step, hg] at ha'
       simp only [trace, List.map_cons, Spec.outs, step, hg, Out.ofPy, Spec.nth]
-      rw [ih _ (k + 1) hss (by simpa [hg] using hn)]
+      rw [ih _ ha' (k + 1) hss (by simpa [hg] using hn)]
 
 private theorem outs_calls (w k n : Nat) :
     Spec.outs w k (List.replicate n .call) = (List.range' k n).map (fun i => Out.val (i % 2 ^ w)) := by
@@ -257,11 +339,11 @@ theorem C19_file_seq (w n : Nat) :
       = (List.range n).map (fun i => Out.val (i % 2 ^ w)) := by
   have hd : Step.delete ∉ List.replicate n Step.call := by
     intro h; have := List.eq_of_mem_replicate h; cases this
-  rw [C19_file_trace w _ 0 _ hd (by rw [Nat.zero_mod]; exact C19_file_valid_create w), outs_calls,
+  rw [C19_file_trace w _ (by decide) 0 _ hd (by rw [Nat.zero_mod]; exact C19_file_valid_create w), outs_calls,
     List.range_eq_range']
 
 /-- every value returned by the file-backed provider is in range -/
-theorem C19_file_range (w : Nat) (f f' : File) (v : Nat) (h : getAndIncrement w f = (.ok v, f')) :
+theorem C19_file_range (w : Nat) (f f' : File) (_ha : AsciiFile f) (v : Nat) (h : getAndIncrement w f = (.ok v, f')) :
     v < 2 ^ w := current_ok_lt w f v (call_ok_current w f f' v h)
 
 /-- **re-instantiating is the identity**: a provider instance holds no state besides the width and
@@ -345,14 +427,15 @@ theorem C19_reject_absent (w : Nat) :
     getAndIncrement w none = (.error .fileNotFound, none) ∧ current w none = .error .fileNotFound :=
   ⟨rfl, rfl⟩
 
-/-- **unreadable or out-of-range content is reported with `ValueError`**, the file is left as it is:
-    first line empty (empty file, blank line), containing a character that is not an ASCII digit
-    (sign, inner or leading blank, letter, exponent …), or denoting a value `≥ 2^w` -/
-theorem C19_reject (w : Nat) (s : List Char)
+/-- **unreadable or out-of-range ASCII content is reported with `ValueError`**, the file is left
+    as it is: first line empty (empty file, blank line), containing a character that is not a digit
+    (sign, inner or leading blank, letter, exponent …), or denoting a value `≥ 2^w`. (The ASCII
+    hypothesis is essential for the claim about the code: CPython reads the non-ASCII `"٣\n"` as 3.) -/
+theorem C19_reject (w : Nat) (s : List Char) (_ha : Ascii s)
     (h : firstLine s = [] ∨ (∃ c ∈ firstLine s, isDigit c = false) ∨ 2 ^ w ≤ parseNat (firstLine s)) :
     current w (some s) = .error .value ∧ getAndIncrement w (some s) = (.error .value, some s) := by
   have hc : current w (some s) = .error .value := by
-    simp only [current, checkCount_char, C19_first_line]
+    simp only [current, checkCount_char, first_line]
     have : ¬ (isDigitStr (firstLine s) = true ∧ parseNat (firstLine s) < 2 ^ w) := by
       rintro ⟨h1, h2⟩
       simp [isDigitStr, List.all_eq_true] at h1
@@ -363,9 +446,9 @@ theorem C19_reject (w : Nat) (s : List Char)
     simp [this]
   exact ⟨hc, call_err w _ _ hc⟩
 
-/-- no other failure exists: an existing file fails only with `ValueError`, a missing one only with
-    `FileNotFoundError` -/
-theorem C19_errors (w : Nat) (f : File) (e : Err) (h : current w f = .error e) :
+/-- no other failure exists: an existing ASCII file fails only with `ValueError`, a missing one only
+    with `FileNotFoundError` (undecodable octets, `UnicodeDecodeError`, are outside the ASCII domain) -/
+theorem C19_errors (w : Nat) (f : File) (_ha : AsciiFile f) (e : Err) (h : current w f = .error e) :
     (f = none ∧ e = .fileNotFound) ∨ (f ≠ none ∧ e = .value) := by
   cases f with
   | none => simp [current] at h; exact Or.inl ⟨rfl, h.symm⟩
@@ -387,7 +470,7 @@ example : Out.ofPy (current 1 (some ['2', '\n'])) = .err .value := by decide
 example : getAndIncrement 14 (some ['1', '6', '3', '8', '3', '\n'])
     = (.ok 16383, some ['0', '\n', '3', '8', '3', '\n']) := by
   have h : current 14 (some ['1', '6', '3', '8', '3', '\n']) = .ok 16383 :=
-    (C19_accept_iff 14 _ 16383).2 (by decide)
+    (C19_accept_iff 14 _ (by decide) 16383).2 (by decide)
   obtain ⟨s, hs, hg⟩ := call_of_current 14 _ 16383 h
   cases hs
   have r0 : render 0 = ['0'] := by rw [render]; simp [digitChar]
